@@ -6,7 +6,7 @@ from-scratch TDEA reference of props/c13.py, decimalises the result with its own
 components nibble-wise; cryptography is also called directly (without cardutil) and must agree with the reference."""
 import itertools
 from util import hb, hs, unhs, outcome
-from props.c13 import (tdes_key_bundle, kat_cases, kat_impl, kat_judge, lib_ecb, ref_ecb, is_digits, digits, pan_field, pack, nibbles, hex_key,
+from props.c13 import (MODEL_CIPHERS, rand_kat_cases, tdes_key_bundle, kat_cases, kat_impl, kat_judge, lib_ecb, ref_ecb, is_digits, digits, pan_field, pack, nibbles, hex_key,
                        table, model_says, spec_value, rdigits, rkey)
 
 ID = 'C14'
@@ -196,7 +196,7 @@ def orders_for(rng, n, tier):
 
 def gen(rng, tier):
     reps = 2 if tier == 'quick' else 20
-    cases = [c for c in kat_cases() if c['alg'] == 'tdes']
+    cases = [c for c in kat_cases() + rand_kat_cases(rng, 40 if tier == 'quick' else 1000) if c['alg'] == 'tdes']
     vias = ['func', 'iso0', 'iso4', 'iso0d']
     for via, pin, pan, kidx, key, want in DOC_PVV:
         cases.append({'kind': 'pvv', 'via': via, 'pin': pin, 'pan': pan, 'kidx': kidx, 'key': key, 'expect': want})
@@ -443,6 +443,9 @@ def zmk_entries(parts, outs, master=None):
 def plan(case, io):
     k = case['kind']
     io = io if isinstance(io, dict) else {}
+    if k == 'kat' and case['alg'] in MODEL_CIPHERS:
+        e, d = MODEL_CIPHERS[case['alg']]
+        return [('menc', 'cipher %s %s %s' % (e, case['key'] or '-', case['pt'] or '-')), ('mdec', 'cipher %s %s %s' % (d, case['key'] or '-', case['ct'] or '-'))]
     if k == 'kat' or io.get('out') in ('HANG', 'CRASH', 'HARNESS', 'NOTRUN'):
         return []
     dom = in_domain(case)
@@ -465,6 +468,9 @@ def plan(case, io):
                 ent.append((kb, tb_, ref_ecb('tdes', kb, tb_)))
         op = 'pvv' if case['via'] == 'func' else 'to_pvv'
         out.append(('pvv', '%s %s %s %s %d %s' % (op, table(ent), pin, key, kidx, pan)))
+        if dom and k == 'pvv':
+            # the same with Triple-DES computed INSIDE the model (no cipher answer supplied by the harness)
+            out.append(('pvv_m', '%s TDES %s %s %d %s' % (op, pin, key, kidx, pan)))
     elif k == 'zmk':
         parts = case['parts']
         ods = case['orders']
@@ -486,6 +492,8 @@ def plan(case, io):
         od = case['orders'][-1]
         ent = zmk_entries(parts, [io.get('clear')], master=case['master'])
         out.append(('enc_zmk', 'enc_zmk %s %s %s' % (table(ent), hs(case['master']), plist([parts[i] for i in od]))))
+        if dom:
+            out.append(('enc_zmk_m', 'enc_zmk TDES %s %s' % (hs(case['master']), plist([parts[i] for i in od]))))
     elif k == 'kcv':
         kb = bytes.fromhex(case['key'])
         n = 6 if case['n'] is None else case['n']
@@ -495,6 +503,8 @@ def plan(case, io):
             ent.append((kb, ZERO16, ct))
             out.append(('kcv_ct', 'kcv_ct %s %d' % (hb(ct), n)))
         out.append(('kcv', 'kcv %s %s %d' % (table(ent), hb(kb), n)))
+        if dom:
+            out.append(('kcv_m', 'kcv TDES %s %d' % (hb(kb), n)))
     return out
 
 
@@ -508,7 +518,7 @@ def judge(case, io, mo):
         return [{'kind': 'oracle', 'sig': 'outcome-' + io['out'], 'msg': 'implementation outcome %s' % io}]
     k = case['kind']
     if k == 'kat':
-        return kat_judge(case, io)
+        return kat_judge(case, io, mo)
     tags = [t for t, _ in plan(case, io)]
     m = dict(zip(tags, mo)) if mo is not None and len(mo) == len(tags) else {}
     dom = in_domain(case)
@@ -570,6 +580,8 @@ def judge(case, io, mo):
         if 'tsp' in io and not io['tsp'].startswith('RAISE OTHER:AttributeError'):
             model('tsp', io['tsp'], 'get_tsp')
         model('pvv', io['pvv'], 'calculate_pvv' if case['via'] == 'func' else 'to_pvv')
+        if 'pvv_m' in m:
+            model('pvv_m', io['pvv'], 'pvv_with_model_tdes')
     elif k in ('zmk', 'enczmk'):
         outs = io['outs']
         if dom:
@@ -601,6 +613,8 @@ def judge(case, io, mo):
             model('zmk', outs[-1], 'get_zone_master_key')
         else:
             model('enc_zmk', outs[-1], 'get_enc_zone_master_key')
+            if 'enc_zmk_m' in m:
+                model('enc_zmk_m', outs[-1], 'get_enc_zone_master_key_with_model_tdes')
     elif k == 'zmkdup':
         if dom:
             comb = ref_combine(case['parts'])
@@ -632,6 +646,8 @@ def judge(case, io, mo):
                 bad('kcv-documented-value', 'documented check value %s, got %s' % (case['expect'], io['kcv']))
             model('kcv_ct', io['kcv'], 'kcv_of_ct')
         model('kcv', io['kcv'], 'calculate_kcv')
+        if 'kcv_m' in m:
+            model('kcv_m', io['kcv'], 'calculate_kcv_with_model_tdes')
     # outside the property's domain (non-digit PINs, malformed keys, arbitrary blocks ...) the code's behaviour is not
     # prescribed: a disagreement with the model there is not reported (a harmless rewrite may change it)
     return ps if ps else (corr if dom else [])
